@@ -167,7 +167,7 @@ pub fn check_module(insts: &[AInst], version: u32, generator: u32, bound: u32, j
 }
 
 pub fn run(cfg: &Cfg, rep: &mut Report) {
-    rep.rule = "modules from the table-directed generator (every one of the 787 opcodes over the run; sections in layout order or interleaved with module-level instructions dropped into function bodies; 0..3 functions; random non-zero bytes after string terminators in half of the inputs), loaded with load_words: output header (magic, version major.minor, bound), output words == the input's instructions regrouped by the loader automaton's logical-layout order with relative order preserved (word-wise under a mask that frees only post-NUL string padding), layout-ordered inputs word-identical from word 5 on, reload of the output equal section by section, load_bytes == load_words; stage `mutated`: every binary the loader accepts among the mutants of C03's generator (18 structured mutators, unknown header versions, ids defined twice, concatenations) comes back with the same total size, the same multiset of (word count, opcode) first words and the same multiset of instructions (word for word, or as decoded where only string padding differs). distinct_nontrivial = distinct opcodes round-tripped x layout mode".into();
+    rep.rule = "modules from the table-directed generator (every one of the 787 opcodes over the run; sections in layout order or interleaved with module-level instructions dropped into function bodies; 0..3 functions; random non-zero bytes after string terminators in half of the inputs), loaded with load_words: output header (magic, version major.minor, bound), output words == the input's instructions regrouped by the loader automaton's logical-layout order with relative order preserved (word-wise under a mask that frees only post-NUL string padding), layout-ordered inputs word-identical from word 5 on, reload of the output equal section by section, load_bytes == load_words; stage `mutated`: every binary the loader accepts among the mutants of C03's generator (18 structured mutators, unknown header versions, ids defined twice, concatenations) comes back with the same total size, the same multiset of (word count, opcode) first words and the same multiset of instructions word for word (bytes after a string's NUL inside its last word excepted). distinct_nontrivial = distinct opcodes round-tripped x layout mode".into();
     rep.assumptions.push("expected grouping comes from the loader automaton written from SPIR-V 1.6 §2.4 (harness/src/spec.rs, model.rs); excluded as the property states: OpLine/OpNoLine inside a function outside a block, more than one OpMemoryModel".into());
     let d = db();
     let n_ops = d.insts.len() as u64;
@@ -285,19 +285,34 @@ pub fn run(cfg: &Cfg, rep: &mut Report) {
             v.sort();
             v
         };
-        let raw_equal = slices(&words) == slices(&out);
-        let (pa, pb) = (rs::parse_rec_words(&words), rs::parse_rec_words(&out));
-        if raw_equal {
-        } else if let (Ok(pa), Ok(pb)) = (pa, pb) {
-            let key = |i: &dr::Instruction| format!("{:?}", i);
-            let (mut ka, mut kb): (Vec<String>, Vec<String>) = (pa.rec.insts.iter().map(key).collect(), pb.rec.insts.iter().map(key).collect());
-            ka.sort();
-            kb.sort();
-            if ka != kb {
-                let diff = ka.iter().zip(&kb).find(|(x, y)| x != y).map(|(x, y)| format!("{} / {}", x.chars().take(200).collect::<String>(), y.chars().take(200).collect::<String>())).unwrap_or_default();
-                r.violation("C01:mutated:instruction-changed".to_string(), format!("accepted binary ({}): the instructions of load + assemble are not those of the input: {}", label, diff), rp());
-                return;
+        // match every input instruction with an output instruction that is word-identical, or identical up to
+        // the bytes after a NUL inside one word (string padding, the one difference the property allows)
+        let pad_equal = |x: &[u32], y: &[u32]| -> bool {
+            x.len() == y.len()
+                && x.iter().zip(y).all(|(a, b)| {
+                    a == b || {
+                        let ab = a.to_le_bytes();
+                        let bb = b.to_le_bytes();
+                        match ab.iter().position(|c| *c == 0) {
+                            Some(p) => ab[..=p] == bb[..=p] && bb[p..].iter().all(|c| *c == 0),
+                            None => false,
+                        }
+                    }
+                })
+        };
+        let (sa, mut sb) = (slices(&words), slices(&out));
+        let mut unmatched: Vec<Vec<u32>> = vec![];
+        for x in &sa {
+            if let Some(pos) = sb.iter().position(|y| y == x).or_else(|| sb.iter().position(|y| pad_equal(x, y))) {
+                sb.swap_remove(pos);
+            } else {
+                unmatched.push(x.clone());
             }
+        }
+        if !unmatched.is_empty() || !sb.is_empty() {
+            let only_in: Vec<String> = unmatched.iter().map(|x| format!("input only: {}", hex_words(x))).chain(sb.iter().map(|x| format!("output only: {}", hex_words(x)))).take(4).collect();
+            r.violation("C01:mutated:instruction-changed".to_string(), format!("accepted binary ({}): the instructions of load + assemble are not those of the input: {}", label, only_in.join(" | ")), rp());
+            return;
         }
         r.count("mutants_accepted_and_reproduced", 1);
         r.nontrivial(format!("mutated:m{}", m));
